@@ -506,6 +506,59 @@ func buildRows() {
 // sizeof of the C records as clang computes them, written by the translator next to the harness binary.
 var cSizes map[string]map[string]int
 
+// clang's offset / size (bits) / big-endian flag of every member path, per version and structure.
+var cLayout struct {
+	V4 map[string]map[string][]any `json:"4"`
+	V6 map[string]map[string][]any `json:"6"`
+}
+
+func cMember(ver, st, path string) (off, size int, ok bool) {
+	m := cLayout.V4
+	if ver == "6" {
+		m = cLayout.V6
+	}
+	e, ok := m[st][path]
+	if !ok || len(e) < 2 {
+		return 0, 0, false
+	}
+	return int(e[0].(float64)), int(e[1].(float64)), true
+}
+
+// oracle: the property itself on the real code — the bytes Go touches vs clang's layout of the real headers.
+func oracleRow(h *rt.H, r Row) {
+	if r.Path == "" {
+		c, ok := cSizes[r.Ver][r.Struct]
+		switch {
+		case !ok:
+			h.OracleFail("unknown-struct", "no C structure "+r.Struct, r)
+		case r.Mode == "exact" && c != r.Size:
+			h.OracleFail("size-mismatch", fmt.Sprintf("IPv%s %s: Go uses %d bytes (%s), sizeof in C is %d", r.Ver, r.Struct, r.Size, r.Go, c), r)
+		case r.Mode == "atmost" && c > r.Size:
+			h.OracleFail("size-mismatch", fmt.Sprintf("IPv%s %s: Go reserves %d bytes (%s), sizeof in C is %d", r.Ver, r.Struct, r.Size, r.Go, c), r)
+		}
+		return
+	}
+	co, cn, ok := cMember(r.Ver, r.Struct, r.Path)
+	if !ok {
+		h.OracleFail("unknown-member", fmt.Sprintf("IPv%s %s has no member %s (%s)", r.Ver, r.Struct, r.Path, r.Go), r)
+		return
+	}
+	bad := false
+	switch r.Mode {
+	case "exact":
+		bad = co != 8*r.Off || cn != 8*r.Size
+	case "bit":
+		bad = co != r.Off || cn != r.Size
+	case "within":
+		bad = co != 8*r.Off || 8*r.Size > cn
+	case "offset":
+		bad = co != 8*r.Off
+	}
+	if bad {
+		h.OracleFail("layout-mismatch", fmt.Sprintf("IPv%s %s.%s: Go (%s) uses offset %d size %d [%s]; C has bit offset %d, bit size %d", r.Ver, r.Struct, r.Path, r.Go, r.Off, r.Size, r.Mode, co, cn), r)
+	}
+}
+
 func loadCSizes() {
 	exe, err := os.Executable()
 	if err != nil {
@@ -518,7 +571,29 @@ func loadCSizes() {
 	if err := json.Unmarshal(b, &cSizes); err != nil {
 		panic(err)
 	}
+	b, err = os.ReadFile(filepath.Join(filepath.Dir(exe), "c13-clayout.json"))
+	if err != nil {
+		panic(err)
+	}
+	if err := json.Unmarshal(b, &cLayout); err != nil {
+		panic(err)
+	}
+	var pp struct {
+		P map[string][]Row `json:"polprog"`
+	}
+	if err := json.Unmarshal(b, &pp); err != nil {
+		panic(err)
+	}
+	for ver, rs := range pp.P {
+		for _, r := range rs {
+			r.Ver = ver
+			polprogRows = append(polprogRows, r)
+		}
+	}
 }
+
+// rows for the unexported policy-program builder constants (read from the source by the translator)
+var polprogRows []Row
 
 func main() {
 	if len(os.Args) > 1 && os.Args[1] == "-dump" {
@@ -535,7 +610,11 @@ func main() {
 		"differential probing of encoders, one-hot probing of accessors) is one op; the model answers from the C layout computed by the Lean layout algorithm on the translated headers. " +
 		"Then randomised byte-level ops: real encoders on random field values vs the model writing the same values at the C offsets"
 	h.Case("table")
-	for _, r := range rows {
+	sort.SliceStable(polprogRows, func(i, j int) bool { return polprogRows[i].Ver+polprogRows[i].Go < polprogRows[j].Ver+polprogRows[j].Go })
+	for _, r := range append(append([]Row{}, rows...), polprogRows...) {
+		if r.Mode != "mirror-size" {
+			oracleRow(h, r)
+		}
 		var op, out string
 		switch {
 		case r.Path == "" && r.Mode == "exact":
@@ -556,6 +635,8 @@ func main() {
 			op, out = fmt.Sprintf("off %s %s %s", r.Ver, r.Struct, r.Path), fmt.Sprintf("%d %d", r.Off, r.Size)
 		case r.Mode == "within":
 			op, out = fmt.Sprintf("within %s %s %s %d %d", r.Ver, r.Struct, r.Path, r.Off*8, r.Size*8), "ok"
+		case r.Mode == "offset":
+			op, out = fmt.Sprintf("within %s %s %s %d 0", r.Ver, r.Struct, r.Path, r.Off*8), "ok"
 		default:
 			panic("mode " + r.Mode)
 		}
@@ -569,7 +650,30 @@ func main() {
 	n := h.N
 	for i := 0; i < n; i++ {
 		h.Case("enc")
-		switch h.Intn(4) {
+		switch h.Intn(7) {
+		case 4:
+			id := h.Rng.Uint64()
+			a := rnd(h, 4)
+			port, proto := uint16(h.Intn(65536)), uint8(1+h.Intn(255))
+			e := ipsets.MakeBPFIPSetEntry(id, ip.CIDRFromAddrAndPrefix(ip.FromNetIP(net.IP(a)), 32).(ip.V4CIDR), port, proto)
+			h.Op(fmt.Sprintf("enc 4 ip_set_key mask=num:%d set_id=num:%d addr=raw:%x port=num:%d protocol=num:%d", 64+32+16+8, id, a, port, proto), hex.EncodeToString(e.AsBytes()))
+			if e.SetID() != id || e.Port() != port || e.Protocol() != proto || !bytes.Equal(e.Addr(), a) {
+				h.OracleFail("ipset-roundtrip", "IP set entry accessors do not read what MakeBPFIPSetEntry wrote", fmt.Sprintf("%x", e.AsBytes()))
+			}
+			h.Count("enc:ipset4")
+		case 5:
+			id := h.Rng.Uint64()
+			a := rnd(h, 16)
+			port, proto := uint16(h.Intn(65536)), uint8(1+h.Intn(255))
+			e := ipsets.MakeBPFIPSetEntryV6(id, ip.CIDRFromAddrAndPrefix(ip.FromNetIP(net.IP(a)), 128).(ip.V6CIDR), port, proto)
+			h.Op(fmt.Sprintf("enc 6 ip_set_key mask=num:%d set_id=num:%d addr=raw:%x port=num:%d protocol=num:%d", 64+128+16+8, id, a, port, proto), hex.EncodeToString(e.AsBytes()))
+			h.Count("enc:ipset6")
+		case 6:
+			a, sa := rnd(h, 4), rnd(h, 4)
+			port, proto := uint16(h.Intn(65536)), uint8(h.Intn(256))
+			k := nat.NewNATKeySrc(net.IP(a), port, proto, ip.CIDRFromAddrAndPrefix(ip.FromNetIP(net.IP(sa)), 32).(ip.V4CIDR))
+			h.Op(fmt.Sprintf("enc 4 calico_nat_key prefixlen=num:%d addr=raw:%x port=num:%d protocol=num:%d saddr=raw:%x", k.PrefixLen(), a, port, proto, sa), hex.EncodeToString(k.AsBytes()))
+			h.Count("enc:natkey4")
 		case 0:
 			proto, pa, pb := uint8(h.Intn(256)), uint16(h.Intn(65536)), uint16(h.Intn(65536))
 			a, b := rnd(h, 4), rnd(h, 4)
